@@ -304,10 +304,16 @@ func checkC16(c *Ctx) {
 				continue
 			}
 			okAll, okGuard := true, false
+			var appendBlocks = map[*ssa.BasicBlock]bool{}
+			var rets []*ssa.Return
+			var noSigAtom ana.Atom
 			ana.Instrs(an, func(in ssa.Instruction) {
 				if ret, isR := in.(*ssa.Return); isR && len(ret.Results) == 1 {
 					if !isConstVal(ret.Results[0], "false") {
 						okAll = false
+					}
+					if in.Parent() == an {
+						rets = append(rets, ret)
 					}
 				}
 				// the append into the result list is guarded by "no signature stored"
@@ -336,12 +342,28 @@ func checkC16(c *Ctx) {
 							if ana.Guarded(st, noSig) {
 								okGuard = true
 							}
+							appendBlocks[st.Block()] = true
+							noSigAtom = noSig
 						}
 					}
 				}
 			})
-			r.Check(okAll && okGuard, "C16.key-schema", "unsigned-complete:"+fname(q), p.Pos(an.Pos()), "the listing callback never stops early and appends exactly when no signature is stored",
-				sprintf("the unsigned-tx query does not list exactly the unconfirmed txs (never stops early=%v, append guarded by 'no signature'=%v)", okAll, okGuard))
+			// ... and only then: a transaction is left out only when a signature of the asking validator is stored
+			// (every path to a return that does not pass the append passes the "signature present" edge)
+			okOnly := noSigAtom != nil
+			if noSigAtom != nil {
+				sigPresent := func(cd ana.Cond) (bool, bool) {
+					pol, m := noSigAtom(cd)
+					return !pol, m
+				}
+				for _, ret := range rets {
+					if !ana.GuardedAvoiding(ret, appendBlocks, sigPresent) {
+						okOnly = false
+					}
+				}
+			}
+			r.Check(okAll && okGuard && okOnly, "C16.key-schema", "unsigned-complete:"+fname(q), p.Pos(an.Pos()), "the listing callback never stops early and lists a transaction exactly when no signature is stored",
+				sprintf("the unsigned-tx query does not list exactly the unconfirmed txs (never stops early=%v, append guarded by 'no signature'=%v, left out only when signed=%v)", okAll, okGuard, okOnly))
 		}
 	}
 
